@@ -101,9 +101,10 @@ CHECKS = {
          "limit_bytes<N> runs the rule in the window [cur, cur+min(avail,N)) wherever cur is, so it neither consumes nor inspects beyond (C18_bytes_bound with C03), and raises exactly when the rule "
          "matched, stopped at the lowered end and the real input continues (C18_bytes_raise). "
          "Within the limit the guard is invisible (C18_twin): read limit_depth in three ways that differ only when the new depth would exceed N — raise (the model), stuck (no continuation), off (check removed); whenever the stuck run returns — i.e. no "
-         "limit was reached anywhere in the run, at any nesting — the guarded and the unguarded run return that very result (outcome, cursor, full trace, surviving actions), for every grammar, action attachment, input and mode; the stuck reading stops exactly where the guard fires (C18_stuck_exact)."),
-   note=GENERAL_NOTE + " C18_twin defines 'needing at most depth N' operationally (the run that cannot continue at a limit returns); the converse characterisation — a guarded run differs from it only if a limit_depth raise event occurs in its trace — is explored by the twin-run oracle (same grammar, guard removed via a second action family) on every explored input, not proved. Depth counts attempts (a rule attempted at depth N+1 raises even if it would fail).",
-   technique="Lean 4 invariant proof + exact characterisation of the two guards + twin-run theorem (guarded = unguarded whenever no limit is reached, by monotonicity in the sub-rule oracle); differential correspondence; trace oracles incl. twin run"),
+         "limit was reached anywhere in the run, at any nesting — the guarded and the unguarded run return that very result (outcome, cursor, full trace, surviving actions), for every grammar, action attachment, input and mode; the stuck reading stops exactly where the guard fires (C18_stuck_exact). Conversely, 'within the limit' can be read off the trace: a guarded run in whose trace no raise of a limit_depth "
+         "pseudo-rule occurs — at any nesting, also one swallowed by try_catch — is the stuck run and hence the unguarded run (C18_twin_trace); an input parses differently with and without the guard only if the guard visibly fired (C18_guard_visible)."),
+   note=GENERAL_NOTE + " 'Without the guard' is the off reading of limit_depth (check removed, depth still counted — nothing else reads the counter); the twin-run oracle compares with the same grammar whose guard is removed via a second action family. Depth counts attempts (a rule attempted at depth N+1 raises even if it would fail).",
+   technique="Lean 4 invariant proof + exact characterisation of the two guards + twin-run theorems (guarded = unguarded whenever no limit is reached, and that is exactly when no limit_depth raise occurs in the trace); differential correspondence; trace oracles incl. twin run"),
  'C19': dict(engine='leaf-lines', design_ref='DESIGN.md §6 C19',
    text=("Proof (Lean 4): for all inputs, every offset k <= size, the five eol policies, eager and lazy tracking and any initial line: at() = k with initial byte 0; "
          "begin_of_line/end_of_line/line_at delimit exactly the specified line with 0 <= bol <= at <= eol <= size and no read outside the data, given initial byte 0 and "
